@@ -182,9 +182,12 @@ AUDITED_ASSERTS = {
     ('runtime::AccumulatingRuntime::backlog', 'assert',
      'Overflow(Add):AddWithOverflow(len(self.to_send),len(self.to_schedule)).0,len(self.notifications)'):
         'previous sum <= 2^63/32 + 2^63/16, notifications <= isize::MAX: total < usize::MAX',
-    ('Foca::send_message', 'assert', 'Overflow(Add):num_items,1'):
+    ('Foca::send_message', 'assert', 'Overflow(Add):acc:u16,1'):
         '`num_items += 1` (u16) runs once per element popped from choice_buf, which holds at most `wanted` elements, '
         'and wanted is min(estimate, u16::MAX) (checked: D6 repair)',
+    ('Foca::send_message', 'assert', 'Overflow(Add):counter:u16,1'):
+        'the same counter when the Feed loop lives in a helper of send_message (starts at 0 there): one step per '
+        'element popped from choice_buf, at most min(estimate, u16::MAX) of them (checked)',
     ('broadcast::Broadcasts::fill', 'assert', 'Overflow(Add):counter:usize,1'):
         'a usize counter from 0 stepped by 1: num_taken counts heap entries popped in this call: bounded by memory',
     ('broadcast::Broadcasts::fill_with_len_prefix', 'assert', 'Overflow(Add):counter:usize,1'):
